@@ -46,12 +46,17 @@ func (lens *lens[S, A]) Gett(s any) A {
 func NewReflector[S, A any](t hseq.Type[S]) Reflector[A] {
 	ft := t.Type
 	fv := reflect.TypeOf(new(A)).Elem()
+	cat := reflect.TypeOf(new(S)).Elem()
+
+	// the focus is addressed by offset from a *S: S itself has to be the struct
+	if cat.Kind() != reflect.Struct {
+		panic(fmt.Errorf("invalid type: Reflector[%s, %s] container is not a struct", cat.String(), fv.Name()))
+	}
 
 	if ft.String() == fv.String() && ft.AssignableTo(fv) {
 		return &lens[S, A]{t}
 	}
 
-	cat := reflect.TypeOf(new(S)).Elem()
 	panic(fmt.Errorf("invalid type: Reflector[%s, %s] not compatible with %s", cat.Name(), ft.Name(), fv.Name()))
 }
 
